@@ -12,6 +12,7 @@ import (
 	"regexp"
 	"strings"
 
+	"github.com/microsoft/yardl/tooling/internal/formatting"
 	"github.com/microsoft/yardl/tooling/internal/validation"
 	"github.com/rs/zerolog/log"
 	"gopkg.in/yaml.v3"
@@ -351,6 +352,18 @@ func collectPackages(parentDir string, alreadyCollected map[string]*PackageInfo,
 			}
 			return collected, nil
 		}
+	}
+
+	var similar *PackageInfo
+	for _, collected := range alreadyCollected {
+		if formatting.ToSnakeCase(collected.Namespace) == formatting.ToSnakeCase(parentInfo.Namespace) {
+			if similar == nil || collected.Namespace < similar.Namespace {
+				similar = collected
+			}
+		}
+	}
+	if similar != nil {
+		return parentInfo, validation.NewValidationError(fmt.Errorf("namespace '%s' is not distinct from namespace '%s' of '%s' in generated code, where both become '%s'", parentInfo.Namespace, similar.Namespace, similar.FilePath, formatting.ToSnakeCase(parentInfo.Namespace)), parentInfo.FilePath)
 	}
 
 	verifhook.Emit("CollectNew", "ns", parentInfo.Namespace, "dir", parentDir, "depth", depthRemaining)
